@@ -16,6 +16,11 @@ namespace cnl {
         template<class Result = void>
         constexpr auto unreachable(char const* /*message*/) noexcept -> Result
         {
+#if defined(JOHNMCFARLANE_CNL_VERIF)
+            if (!__builtin_is_constant_evaluated()) {
+                johnmcfarlane_cnl_verif_abort_hook("unreachable (release)");
+            }
+#endif
 #if defined(_MSC_VER)
             __assume(false);
 #elif defined(__GNUC__)
